@@ -1134,6 +1134,7 @@ void myth_uncond_wait_cb(void *arg1,void *arg2,void *arg3) {
   myth_uncond_t * u = arg1;
   myth_thread_t cur = arg2;
   MYTH_VERIF_EV2("CbEnter", 10, ((long)__builtin_frame_address(0) & 15));
+  MYTH_VERIF_EV2("UcCbLd", VUC(u), VD(u->th));
   u->th = cur;
   MYTH_VERIF_EV3("UcPub", VUC(u), VD(cur), u->th == cur);
   MYTH_VERIF_EV0("CbExit");
